@@ -147,3 +147,28 @@ Proof.
   rewrite forallb_forall in H. intros [a b] He. specialize (H _ He). cbn in H.
   apply andb_prop in H as [H1 H2]. apply keyclass_eqb_eq in H1, H2. now subst.
 Qed.
+
+(* ---------- round 6 ---------- *)
+Lemma plugin_chain_is_login : forall answers c, plugin_chain plugin_step c answers = plugin_login c answers.
+Proof. induction answers as [|a r IH]; intros c; cbn; [reflexivity|]. destruct a; cbn; [reflexivity|apply IH|apply IH]. Qed.
+
+Theorem login_plugin_sound a g f :
+  gopt_is (glogin_step a g f) = true ->
+  exists step, glogin_step a g f = Some step /\
+    forall claimed answers, plugin_chain step claimed answers = plugin_login claimed answers.
+Proof.
+  unfold glogin_step. destruct (glogin_ok a g f); [|discriminate]. intros _.
+  exists plugin_step. split; [reflexivity|]. intros. apply plugin_chain_is_login.
+Qed.
+
+Theorem handshake_sound evs :
+  ghandshake_ok evs = true ->
+  exists es, ghs_events evs = Some es /\
+    hs_armed_at HReadResp false es = Some true /\ hs_armed_at HJoin false es = Some false /\
+    forall d t, stream_read_ok false d t = true.
+Proof.
+  unfold ghandshake_ok. destruct (ghs_events evs) as [es|]; [|discriminate].
+  destruct (hs_armed_at HReadResp false es) as [[|]|] eqn:E1; try discriminate.
+  destruct (hs_armed_at HJoin false es) as [[|]|] eqn:E2; try discriminate.
+  intros _. exists es. split; [reflexivity|]. split; [exact E1|]. split; [exact E2|]. intros d t. reflexivity.
+Qed.
